@@ -31,6 +31,7 @@ class Run:
         self.prog = prog
         self.log = []
         self.scen = scen or {}
+        self.iters = {}
 
     def default_of(self, tix):
         t = self.prog.ty(tix)
@@ -57,6 +58,10 @@ class Run:
         """crate-local From impl selected by the ADT heads of source value / target type"""
         prog = self.prog
         src = arg[5] if is_struct(arg) and len(arg) > 5 else None
+        if src is None and isinstance(arg, tuple) and arg[:1] == ("model",):
+            src = arg[2]
+        if src is None and isinstance(arg, tuple) and arg[:1] == ("portable-of",) and isinstance(arg[1], tuple) and arg[1][:1] == ("model",):
+            src = arg[1][2]      # an opaque converted model value still knows which ADT it is
         gs = [g for g in (t.get("gargs") or []) if isinstance(g, int)]
         heads = [prog.ty(g).get("d") for g in gs]
         for imp in prog.impls_of("core::convert::From"):
@@ -81,10 +86,85 @@ class Run:
         sp = mir.strip_generics(name)
         last = sp.split("::")[-1]
         decl = t.get("callee") or ""
+        # iterators over concrete short vectors (consumed in order; adapters are lazy, so effects happen when items are pulled)
+        ITER = (("iter",), ("miter",), ("eiter",), ("fiter",))
+        if last in ("into_iter", "iter", "iter_mut") and len(args) == 1 and isinstance(args[0], tuple) and args[0][:1] == ("vec",):
+            k = len(self.iters)
+            self.iters[k] = [list(args[0][1]), 0]
+            return ("iter", k)
+        if last in ("into_iter", "cloned", "copied", "by_ref") and len(args) == 1 and isinstance(args[0], tuple) and args[0][:1] in ITER:
+            return args[0]
+        if last == "enumerate" and len(args) == 1 and isinstance(args[0], tuple) and args[0][:1] in ITER:
+            k = len(self.iters)
+            self.iters[k] = [None, 0]
+            return ("eiter", args[0], k)
+        if last == "map" and "iterator::Iterator" in sp and len(args) == 2 and isinstance(args[0], tuple) and args[0][:1] in ITER:
+            return ("miter", args[0], args[1])
+        if last == "filter" and "iterator::Iterator" in sp and len(args) == 2 and isinstance(args[0], tuple) and args[0][:1] in ITER:
+            return ("fiter", args[0], args[1])
+        if last == "next" and len(args) == 1 and isinstance(args[0], tuple) and args[0][:1] in ITER:
+            it = args[0]
+            if it[0] == "iter":
+                st = self.iters[it[1]]
+                if st[1] < len(st[0]):
+                    st[1] += 1
+                    return some(st[0][st[1] - 1])
+                return NONE
+            nx = self.handler("core::iter::traits::iterator::Iterator::next", [it[1]], t)
+            ov = absint.opt_view(nx)
+            if not ov or ov[0] != "Some":
+                return NONE
+            if it[0] == "eiter":
+                st = self.iters[it[2]]
+                st[1] += 1
+                return some(("tuple", [st[1] - 1, ov[1]]))
+            if it[0] == "miter":
+                return some(absint.call_closure(prog, it[2], [ov[1]], self.handler, 1, True))
+            if it[0] == "fiter":
+                keep = absint.call_closure(prog, it[2], [ov[1]], self.handler, 1, True)
+                if keep is True or keep == 1:
+                    return some(ov[1])
+                if keep is False or keep == 0:
+                    return self.handler(name, args, t)
+                raise Unrecognised("filter predicate with an undecided verdict %r" % (keep,))
+        if (last in ("collect", "from_iter") or name == "__materialize__") and len(args) == 1 and isinstance(args[0], tuple) and args[0][:1] in ITER:
+            out = []
+            while len(out) < 64:
+                nx = self.handler("core::iter::traits::iterator::Iterator::next", [args[0]], t)
+                ov = absint.opt_view(nx)
+                if not ov or ov[0] != "Some":
+                    break
+                out.append(ov[1])
+            return ("vec", tuple(out))
+        if name == "__materialize__":
+            return None
+        if last == "extend" and len(args) == 2 and "Extend" in sp:
+            return ("tuple", [])
+        if last == "to_vec" and len(args) == 1 and isinstance(args[0], tuple) and args[0][:1] == ("vec",):
+            return args[0]
+        # concrete short vectors: length, checked and unchecked access at a concrete position
+        if args and isinstance(args[0], tuple) and args[0][:1] == ("vec",):
+            items = args[0][1]
+            if last == "len" and len(args) == 1:
+                return len(items)
+            if last == "is_empty" and len(args) == 1:
+                return len(items) == 0
+            if last == "get" and len(args) == 2 and isinstance(args[1], int) and not isinstance(args[1], bool):
+                self.log.append(("get", args[1]))
+                return some(items[args[1]]) if 0 <= args[1] < len(items) else NONE
+            if last in ("index", "index_mut") and len(args) == 2 and isinstance(args[1], int) and not isinstance(args[1], bool):
+                if 0 <= args[1] < len(items):
+                    self.log.append(("index", args[1]))
+                    return items[args[1]]
+                raise Unrecognised("PANIC: index %d out of bounds (len %d)" % (args[1], len(items)))
+            if last in ("elements", "as_slice", "deref", "as_ref", "iter") and len(args) == 1:
+                return args[0]
         if last == "push" and sp.startswith("alloc::vec::Vec") and len(args) == 2:
             self.log.append(("push", args[0], args[1]))
             return ("tuple", [])
         if sp == "alloc::vec::Vec::new" and not args:
+            return EMPTY_VEC
+        if sp == "alloc::vec::Vec::with_capacity" and len(args) == 1:
             return EMPTY_VEC
         if last == "default" and not args:
             gs = [g for g in (t.get("gargs") or []) if isinstance(g, int)]
@@ -100,8 +180,12 @@ class Run:
             if ov:
                 raise Unrecognised("PANIC: %s on None" % last)
             return None
-        if last in ("into_iter", "collect", "iter", "to_vec", "clone", "to_owned", "cloned", "as_ref", "deref", "borrow") and len(args) == 1:
+        if last in ("into_iter", "collect", "from_iter", "iter", "to_vec", "clone", "to_owned", "cloned", "copied", "as_ref", "as_slice", "deref", "borrow") and len(args) == 1:
             return args[0]
+        if sp == "core::bool::<impl bool>::then" and len(args) == 2 and isinstance(args[0], (bool, int)):
+            return some(absint.call_closure(prog, args[1], [], self.handler, 1, True)) if args[0] else NONE
+        if sp == "core::bool::<impl bool>::then_some" and len(args) == 2 and isinstance(args[0], (bool, int)):
+            return some(args[1]) if args[0] else NONE
         if sp == "alloc::collections::btree::map::BTreeMap::new" and not args:
             return ("map", ())
         if last in ("into", "from") and len(args) == 1 and "convert" in (t.get("trait") or ""):
@@ -158,6 +242,12 @@ def show(v, depth=0):
             return "[%s]" % ", ".join(show(x, depth + 1) for x in v[1])
         if v[0] == "conv":
             return "into(%s)" % show(v[1], depth + 1)
+        if v[0] == "model":
+            return v[1]
+        if v[0] == "id-of":
+            return "register_type(%s)" % show(v[1], depth + 1)
+        if v[0] == "portable-of":
+            return "into_portable(%s)" % show(v[1], depth + 1)
         if v[0] == "closure":
             return "<closure>"
     return repr(v)
